@@ -787,8 +787,18 @@ def json_roundtrip(project, name="p.json"):
 _SAVED = None
 
 
+# Which behaviour-relevant settings are part of the saved format. Committed, not probed: since the repair D-JSON4 all
+# five are written and restored. C16 verifies at run time that this table is still truthful (probe_saved_settings);
+# C15/C16/C17 restrict their JSON variants to the settings listed as saved here.
+SAVED_SETTINGS = {"wr": True, "fr": True, "wpr": True, "mw": True, "inputs": True}
+
+
 def saved_settings():
-    """{'wr','fr','wpr','mw','inputs'} -> bool: is the setting part of the saved format?"""
+    return dict(SAVED_SETTINGS)
+
+
+def probe_saved_settings():
+    """{'wr','fr','wpr','mw','inputs'} -> bool: does the setting survive a JSON round trip on the current tree?"""
     global _SAVED
     if _SAVED is not None:
         return _SAVED
